@@ -5,7 +5,8 @@ from cases import Case, MAXU, WIDTH
 TRUSTED_BASE = [
     "Coq 8.16.1 kernel (coqc, full .vo build; vm_compute used in finite-domain lemmas; no native_compute)",
     "no axioms declared in the development (grep + Print Assumptions audited on every run)",
-    "tools/gen_from_src.py: extraction of constants / table / struct schemas from /repo sources into Gen/*.v",
+    "tools/gen_from_src.py: extraction of constants / table / struct schemas from /repo sources into Gen/*.v (a site that can no longer be read keeps its reference value and breaks the obligations that depend on it)",
+    "tools/gen_leaves.py (T3): unverified translator of a small Rust subset (straight-line integer functions) into Gallina, Gen/Leaves*.v; the regenerated leaves are proved equal to the hand model (Proofs/Leaves*Ok.v)",
     "Coq extraction (ExtrOcamlBasic only; no Extract Constant / Extract Inductive of our own) + OCaml 4.13.1 + ocaml/driver.ml (parsing/printing)",
     "Rust harness (/verif/harness), native spec oracle, Python orchestration and generators: decide nothing universal",
     "rustc integer / slice / Vec semantics as modelled in Base/Outcome.v; serde+bincode; minimum_redundancy (external crates, not modelled)",
@@ -44,8 +45,22 @@ def gen_c13(rng, tier):
             else:
                 v = rng.randrange(lo, 1) if lo < 0 else rng.randrange(0, min(hi, 1000) + 1)
             vals.append(v)
-        path = rng.choice(["collect", "builder", "extend"])
-        c = Case("c13-%d" % k, tags=dict(elem=elem, n=n, style=style, path=path, trivial=(n == 0), cost=n * 3))
+        path = rng.choice(["collect", "builder", "extend", "hist", "hist"])
+        if path == "hist":
+            # a push / extend history: chunk boundaries at and around the line (256 symbols) and
+            # half-line (128) positions, so that an extend starts, ends and passes there
+            cuts = set()
+            for _ in range(rng.randrange(1, 6)):
+                base = rng.choice([0, 64, 128, 192, 256, 384, 512, 640, 768])
+                cuts.add(max(0, min(n, base + rng.choice([-2, -1, 0, 0, 0, 1, 2, rng.randrange(-40, 40)]))))
+            cuts = sorted(cuts | {n})
+            toks, prev = [], 0
+            for cpos in cuts:
+                if cpos > prev or rng.random() < 0.1:
+                    toks.append(("p" if (cpos - prev <= 3 and rng.random() < 0.6) or rng.random() < 0.15 else "e") + str(cpos - prev))
+                    prev = cpos
+            path = "hist:" + ",".join(toks)
+        c = Case("c13-%d" % k, tags=dict(elem=elem, n=n, style=style, path=path.split(":")[0], trivial=(n == 0), cost=n * 3))
         c.add(C.new_line("qv", elem, path, vals))
         c.add("Q len")
         c.add("Q isempty")
@@ -246,6 +261,39 @@ def huff_case(rng, cid, kind, elem, tier, family, n=None, sweep=None, alpha_size
     return c
 
 
+def gap_profile_cases(rng, prefix, d, kinds, fam, profiles, elem="u16"):
+    """d-adic count profiles whose Huffman tree is complete and has whole LEVELS WITHOUT LEAVES
+    (leaf counts n_L per level with sum n_L * d^-L = 1, weight d^(Lmax-L) per leaf at level L): the
+    sorted code lengths then jump by more than one level between consecutive symbols"""
+    out = []
+    for kk, prof in enumerate(profiles):
+        lmax = max(prof)
+        counts = []
+        for lvl in sorted(prof):
+            counts += [d ** (lmax - lvl)] * prof[lvl]
+        order = list(range(len(counts)))
+        rng.shuffle(order)                      # which symbol VALUES are the heavy ones varies
+        seq = []
+        for pos, cnt in zip(order, counts):
+            seq += [pos * 2 + 1] * cnt
+        rng.shuffle(seq)
+        kind = kinds[kk % len(kinds)]
+        c = Case("%s-gap%d" % (prefix, kk), tags=dict(kind=kind, elem=elem, n=len(seq), alphabet=len(counts),
+                                                      mix="levels-without-leaves %s" % sorted(prof.items()), cost=len(seq) * 100))
+        c.add(C.new_line(kind, elem, rng.choice(["new", "from", "collect"]), seq))
+        c.add("Q codes")
+        c.add("Q nlevels")
+        C.tree_queries(c, rng, seq, WIDTH[elem], fam, sweep=len(seq) <= 2100, nsyms=len(counts))
+        c.seq = seq
+        c.model = len(seq) <= 6000
+        out.append(c)
+    return out
+
+
+GAPS4 = [{1: 3, 3: 16}, {1: 2, 3: 32}, {1: 3, 4: 64}, {1: 3, 3: 12, 4: 16}, {1: 1, 3: 48}, {2: 15, 4: 16}, {1: 3, 3: 15, 5: 16}]
+GAPS2 = [{1: 1, 3: 4}, {2: 3, 5: 8}, {1: 1, 3: 3, 5: 4}, {1: 1, 4: 8}, {2: 2, 3: 3, 5: 4}, {1: 1, 2: 1, 5: 8}]
+
+
 def gen_c02(rng, tier):
     out = []
     k = 0
@@ -282,6 +330,7 @@ def gen_c02(rng, tier):
         c.seq = seq
         c.model = len(seq) <= 6000
         out.append(c)
+    out += gap_profile_cases(rng, "c02", 4, HQ_KINDS, "hq", GAPS4)
     if tier == "thorough":
         # KF-17: a code longer than 32 bits (17 fragments) needs millions of symbols
         import heapq
@@ -343,6 +392,7 @@ def gen_c03(rng, tier):
         c.model = c.tags["n"] <= 4000
         out.append(c)
         k += 1
+    out += gap_profile_cases(rng, "c03", 2, ["hwt"], "hw", GAPS2)
     for kind in ["wt", "hwt"]:
         c = Case("c03-empty-%s" % kind, tags=dict(kind=kind, n=0, trivial=True))
         c.add("NEW %s u32 %s 0" % (kind, rng.choice(["new", "from", "collect"])))
@@ -852,7 +902,46 @@ def gen_c11(rng, tier):
         c.add("SER")
         c.model = c.tags.get("n", 0) <= 1100
         out.append(c)
-    return out + gen_c11_empties(rng)
+    return out + gen_c11_empties(rng) + gen_c11_deep(rng, tier)
+
+
+def deep_binary_profile(n_merges):
+    """symbol counts whose binary Huffman tree is deep but NOT degenerate (leaf t weighs about as much
+    as the subtree merged three steps earlier: two long branches side by side), so that long codes
+    with ones among their leading bits exist: 48 merges -> 25 levels, 3.5M symbols"""
+    merged, freqs = [2, 4], [1, 1, 2, 2]
+    for t in range(2, n_merges):
+        leaf = max(freqs[-1], merged[t - 3] if t >= 3 else 0) + 1
+        freqs.append(leaf)
+        merged.append(merged[t - 2] + leaf)
+    return freqs
+
+
+def gen_c11_deep(rng, tier):
+    """code tables with long codes through serialization: every bit of a 25-bit code must survive"""
+    out = []
+    for k, (kind, merges) in enumerate(sizes(tier, [("hwt", 48), ("hqwt256", 40)], [("hwt", 48), ("hqwt256", 48), ("hqwt512pfs", 44), ("hwt", 36)])):
+        freqs = deep_binary_profile(merges)
+        seq = []
+        for sym, f in enumerate(freqs):
+            seq += [sym] * f
+        rng.shuffle(seq)
+        n = len(seq)
+        c = Case("c11-deep%d" % k, tags=dict(kind=kind, elem="u8", n=n, alphabet=len(freqs), mix="deep non-degenerate", path="new", cost=n // 20))
+        c.fam = "hw" if kind == "hwt" else "hq"
+        c.seq = seq
+        c.add(C.new_line(kind, "u8", "new", seq))
+        c.add("Q nlevels")
+        c.add("RT")
+        for sym in range(len(freqs)):
+            c.add("Q rank %d %d" % (sym, rng.choice([n, n // 2, n // 3])))
+            c.add("Q select %d %d" % (sym, rng.choice([0, 0, 1])))
+        for _ in range(20):
+            c.add("Q get %d" % rng.randrange(n))
+        c.add("RT")
+        c.model = False
+        out.append(c)
+    return out
 
 
 def gen_c11_empties(rng):
@@ -1025,6 +1114,19 @@ def gen_c17(rng, tier):
         n = rng.choice([0, 1, 2, 10, 300])
         alpha = rng.sample(range(256), rng.randrange(1, 257))
         c.add("FN remap %s" % " ".join(str(rng.choice(alpha)) for _ in range(n)))
+    # alphabets that are (nearly) compact already: 0..d-1, 1..d, 0..d with one value missing (largest
+    # byte = number of distinct bytes), a single byte, all 256 bytes; every byte of the alphabet occurs
+    for d in sizes(tier, [1, 2, 3, 4, 5, 16, 64, 128, 254, 255, 256], list(range(1, 257))):
+        alphas = [list(range(d))]
+        if d < 256:
+            alphas.append(list(range(1, d + 1)))
+            miss = rng.randrange(0, d)
+            alphas.append([x for x in range(d + 1) if x != miss])
+            alphas.append([rng.randrange(0, 256)] if d == 1 else sorted(rng.sample(range(256), d)))
+        for alpha in alphas:
+            text = list(alpha) + [rng.choice(alpha) for _ in range(rng.choice([0, 3, 40]))]
+            rng.shuffle(text)
+            c.add("FN remap %s" % " ".join(map(str, text)))
     out.append(c)
     return out
 
@@ -1067,9 +1169,47 @@ def post_c18(prop, cases, outs, profiles):
 
 
 # ------------------------------------------------------------------------------- C19
+def tail_swap(rng, seq, period=256):
+    """a different sequence with the same length and the same symbol counts that differs only inside the
+    last partial block of `period` symbols (or anywhere if the length is a multiple): swap two unequal
+    symbols; None if impossible"""
+    n = len(seq)
+    lo = (n // period) * period if n % period else max(0, n - period)
+    idx = list(range(lo, n))
+    rng.shuffle(idx)
+    for a in idx:
+        for b in idx:
+            if seq[a] != seq[b]:
+                s2 = list(seq)
+                s2[a], s2[b] = s2[b], s2[a]
+                return s2
+    return None
+
+
 def gen_c19(rng, tier):
     out = []
     k = 0
+    # quad vectors: every construction path gives equal values; a different sequence never compares
+    # equal, in particular one that differs only in the last partial 256-symbol line
+    for _ in range(sizes(tier, 40, 200)):
+        n = rng.choice([1, 2, 3, 100, 255, 256, 257, 300, 511, 512, 513, 700, 1000])
+        s, mix = C.gen_quad_seq(rng, n)
+        c = Case("c19-qv%d" % k, tags=dict(kind="qv", n=n, mix=mix))
+        k += 1
+        c.add(C.new_line("qv", "u8", "collect", s))
+        c.add("STORE a")
+        for path in ["builder", "extend", "hist:e%d,p%d,e%d" % (n // 3, min(2, n - n // 3), n)]:
+            c.add(C.new_line("qv", "u8", path, s))
+            c.add("EQ a")
+        c.add("CLONE")
+        c.add("EQ a")
+        for s2 in [tail_swap(rng, s), [x if i != n - 1 else (x + 1) % 4 for i, x in enumerate(s)],
+                   [x if i != rng.randrange(n) else (x + 2) % 4 for i, x in enumerate(s)], s[:-1], s + [s[-1]]]:
+            if s2 is not None and s2 != s:
+                c.add(C.new_line("qv", "u8", "collect", s2))
+                c.add("EQ a")
+        c.model = False
+        out.append(c)
     for _ in range(sizes(tier, 60, 300)):
         fam = rng.choice(["q", "hq", "w", "hw"])
         n = rng.choice([0, 1, 2, 100, 257, 1000, 2049])
@@ -1108,6 +1248,13 @@ def gen_c19(rng, tier):
                 if fam in ("hq", "hw"):
                     c.add("Q codes")
                 c.add("EQ u8")
+            # same length, same symbol counts, differs only near the end
+            seq3 = tail_swap(rng, seq)
+            if seq3 is not None:
+                c.add(C.new_line(kind, "u8", "new", seq3))
+                if fam in ("hq", "hw"):
+                    c.add("Q codes")
+                c.add("EQ u8")
         c.model = False
         out.append(c)
     # quad / bit structures: construction paths compare equal
@@ -1130,6 +1277,10 @@ def gen_c19(rng, tier):
             s2[rng.randrange(n)] ^= 1
             c.add(C.new_line(kind, "u64", "new", s2))
             c.add("EQ a")
+            s3 = tail_swap(rng, s)
+            if s3 is not None:
+                c.add(C.new_line(kind, "u64", "new", s3))
+                c.add("EQ a")
         c.model = False
         out.append(c)
     for _ in range(sizes(tier, 50, 250)):
@@ -1343,7 +1494,31 @@ def gen_c16(rng, tier):
         c.lines = [l for l in c.lines if l.startswith("NEW") or l == "Q codes"] + ["SPACE"]
         c.model = c.tags.get("n", 0) <= 5000
         out.append(c)
-    return out + gen_c16_sparse(rng)
+    return out + gen_c16_sparse(rng) + gen_c16_grown(rng, tier)
+
+
+def gen_c16_grown(rng, tier):
+    """growable bit vectors filled by push / extend: the vector holds spare capacity (amortised
+    doubling), which is retained memory the reported figure has to include; lengths just above a power
+    of two of 512-bit lines leave almost half of the allocation unused"""
+    out = []
+    for k, lines in enumerate(sizes(tier, [1034, 300], [1034, 300, 2100, 4100, 520])):
+        n = 512 * lines + rng.randrange(0, 512)
+        bits = "".join(rng.choice("01") for _ in range(n))
+        for how in ["new", "withcap"]:
+            c = Case("c16-grown%d-%s" % (k, how), tags=dict(kind="bvm", n=n, mix="grown by extend", path=how, cost=2000))
+            c.fam = "bvm"
+            c.seq = []
+            c.add("NEW bvm - %s %d %s" % (how, 64 if how == "withcap" else 0, ("1" * 64) if how == "withcap" else "-"))
+            c.add("OP extbits %s" % bits)
+            c.add("Q len")
+            c.add("SPACE")
+            if rng.random() < 0.5:
+                c.add("OP shrink")
+                c.add("SPACE")
+            c.model = False
+            out.append(c)
+    return out
 
 
 def gen_c16_sparse(rng):
@@ -1385,8 +1560,6 @@ def post_c16(prop, cases, outs, profiles):
                     if fam in ("hq", "hw"):
                         sigma = max(c.seq) if c.seq else 0
                         slack += 96 * (sigma + 1) + 4096
-                    if fam == "bvm":
-                        slack += heap        # a growable vector may hold up to twice its length
                     if abs(rep - actual) > slack:
                         fs.append(K.Finding("violation", prop, c, kk, l, prof, "|reported - retained| <= %d" % slack, "reported %d retained %d" % (rep, actual), "space_usage_byte far from retained memory"))
                     if ok != "T":
@@ -1408,6 +1581,38 @@ def gen_c15(rng, tier):
         c.model = n <= 5000
         out.append(c)
         k += 1
+    # explicit count profiles: the shape of the code depends on the exact multiset of counts
+    # (hapax-heavy alphabets next to symbols occurring twice, one dominant small / large symbol with many
+    # rare ones, two plateaus, counts differing by one) and on which symbol VALUES are frequent
+    profs = []
+    for a, b, cb in sizes(tier, [(1000, 24, 2), (300, 7, 2), (60, 3, 3)], [(1000, 24, 2), (300, 7, 2), (60, 3, 3), (3000, 50, 2), (500, 100, 2), (120, 5, 4)]):
+        profs.append(("hapax", [1] * a + [cb] * b))
+    for rare in sizes(tier, [200, 30], [200, 30, 600, 5]):
+        profs.append(("dominant-small", [rare * 49] + [1] * rare))
+        profs.append(("dominant-large", [1] * rare + [rare * 49]))
+    profs.append(("plateaus", [3] * 40 + [6] * 40))
+    profs.append(("plus-one", [2] * 64 + [3] * 3))
+    profs.append(("increasing", list(range(1, 70))))
+    profs.append(("decreasing", list(range(70, 0, -1))))
+    for name, counts in profs:
+        for fam in ["hq", "hw"]:
+            kind = rng.choice(HQ_KINDS[:2]) if fam == "hq" else "hwt"
+            elem = "u16" if len(counts) < 60000 else "u32"
+            shift = rng.choice([0, 0, 1, 7])
+            seq = []
+            for sym, cnt in enumerate(counts):
+                seq += [sym + shift] * cnt
+            rng.shuffle(seq)
+            c = Case("c15-p%d" % k, tags=dict(kind=kind, elem=elem, n=len(seq), alphabet=len(counts), mix=name, path="new", trivial=False, cost=len(seq) * 12))
+            c.add(C.new_line(kind, elem, "new", seq))
+            c.add("Q codes")
+            c.add("Q nlevels")
+            c.add("SPACE")
+            c.seq = seq
+            c.fam = fam
+            c.model = len(seq) <= 5000
+            out.append(c)
+            k += 1
     return out
 
 
